@@ -77,12 +77,15 @@ def main():
     ap.add_argument("-k", default="")
     ap.add_argument("--tier", default="quick")
     ap.add_argument("--confirm-only", action="store_true")
+    ap.add_argument("--json", default="")
     a = ap.parse_args()
     bad = 0
+    allres = []
     for sd in sorted(glob.glob(os.path.join(ROOT, "seeded", "*"))):
         if not os.path.isdir(sd) or not re.search(a.k, os.path.basename(sd)):
             continue
         r = evaluate(sd, a.tier, a.confirm_only)
+        allres.append(r)
         ok_confirm = r.get("builds") and r.get("suite_passes_with_change") and r.get("demo_passes_without") and r.get("demo_fails_with")
         line = "%-14s %s confirm=%s" % (r["id"], r["property"], "ok" if ok_confirm else "NO %s" % {k: r.get(k) for k in ("builds", "suite_passes_with_change", "demo_passes_without", "demo_fails_with", "status")})
         if "checks" in r:
@@ -97,6 +100,11 @@ def main():
                 print("      " + v["detail"])
             elif v["tail"]:
                 print("      " + v["tail"].replace("\n", "\n      "))
+    if a.json:
+        for r in allres:
+            for v in (r.get("checks") or {}).values():
+                v.pop("tail", None)
+        json.dump(allres, open(a.json, "w"), indent=1)
     return 1 if bad else 0
 
 
